@@ -361,7 +361,11 @@ func (wd *world) checkCalls(op string, d digest.Digest, rt *routed, extra func(c
 			}
 			if extra != nil {
 				if msg := extra(call, lvl); msg != "" {
-					wd.c.Violation(siteDemux+"."+op+":wrong-patched-instance-name", "%s(%s) via %v: %s", op, d, rt.e, msg)
+					sig := siteDemux + "." + op + ":wrong-patched-instance-name"
+					if lvl > 0 { // the first call was right, a fallback call is not
+						sig = siteHier + "." + op + ":fallback-call-with-inconsistent-names"
+					}
+					wd.c.Violation(sig, "%s(%s) via %v: %s", op, d, rt.e, msg)
 					return false
 				}
 			}
